@@ -265,12 +265,12 @@ def run(pid, rules, mutants=None, *, level="other", explanation="", not_decided=
     distinct = len({o["key"] for o in obl})
     rules_seen = sorted({o["rule"] for o in obl})
     samples = []
-    seen_rules = set()
+    per_rule = {}
     for o in obl:
-        if o["rule"] not in seen_rules or o["status"] == "violation":
-            seen_rules.add(o["rule"])
+        per_rule[o["rule"]] = per_rule.get(o["rule"], 0) + 1
+        if per_rule[o["rule"]] <= 3 or o["status"] == "violation":
             samples.append({"rule": o["rule"], "key": o["key"], "verdict": o["status"], "what": o["what"], "loc": o["loc"]})
-    samples = samples[:60]
+    samples = samples[:90]
     has_open = bool(known_hit)
     lvl = level
     if lvl == "proof" and (has_open or new_viol):
